@@ -613,8 +613,11 @@ def check(root, pid, tier, seed, write_evidence=True):
             "wall_s": round(wall, 1),
             "violations": viol_lines,
         }
-        os.makedirs(os.path.join(root, "evidence"), exist_ok=True)
-        json.dump(ev, open(os.path.join(root, "evidence", pid + ".json"), "w"), indent=1)
+        # evidence describes /repo itself; runs against another tree (VERIF_REPO=<scratch worktree>, used to
+        # try seeded changes) leave the committed evidence alone
+        evdir = os.path.join(root, "evidence") if os.path.realpath(REPO) == "/repo" else os.path.join(root, "work", "evidence-scratch")
+        os.makedirs(evdir, exist_ok=True)
+        json.dump(ev, open(os.path.join(evdir, pid + ".json"), "w"), indent=1)
     log("%s %s: theorems %d/%d, %d cases (%d non-trivial), %d observation lines compared, %d new violation(s), %d known; %.0fs -> %s"
         % (pid, tier, pc["discharged"] if not problems_proof else 0, pc["obligations"], evals, nontriv, compared, len(new_viol), len(known_hits), wall, "OK" if rc == 0 else "FAIL"))
     return rc
